@@ -36,6 +36,21 @@ def run_case(b, wd, name, comp, faults, allone=False):
     return path, evs
 
 
+def run_two(b, wd, name, comp, faults):
+    """two tables written one after the other by the same thread of one process; the faults hit the first"""
+    paths = [os.path.join(wd, name + "_%d.mtbl" % i) for i in (0, 1)]
+    for p in paths:
+        if os.path.exists(p):
+            os.unlink(p)
+    L = ["scratch " + wd, "wopts 1 0"]
+    for (call, kind, n) in faults:
+        L.append("wfault %d %s %d" % (call, kind, n))
+    for i, p in enumerate(paths):
+        L += [x.replace("w_init 0 ", "w_init %d " % i).replace("w_add 0 ", "w_add %d " % i).replace("w_close 0", "w_close %d" % i) for x in table_lines(p, comp)]
+    evs, rc, err = core.run_drv(b, "\n".join(L) + "\n", wd, name, fork=True, timeout=120)
+    return paths, evs
+
+
 def unbounded(ctx):
     """WriteAllU.tla with Apalache: the inductive invariant of one _write_all call for every buffer length and every sequence of
     write(2) outcomes (unbounded), and the two regression loops refuted"""
@@ -154,6 +169,29 @@ def run(ctx):
                 os.unlink(path)
             if nrun <= 2:
                 ctx.sample({"comp": comp, "script": recs[-1]["script"], "write_calls": sum(1 for e in evs if e["e"] == "Write"), "exit": recs[-1]["exit"], "same": same})
+        # what an interrupted write leaves behind in the thread (errno) must not matter to the next table written by it
+        if comp == comps[0]:
+            calls = list(range(1, ncalls + 1))
+            if ctx.quick():
+                calls = sorted(set([1, 2, 3, ncalls] + rng.sample(calls, min(len(calls), 6))))
+            for c in calls:
+                for sc in ([(c, "eintr", 0)], [(c, "partial", 1)] if bufs[c - 1] > 1 else [(c, "eintr", 0), (c + 1, "eintr", 0)]):
+                    paths, evs = run_two(b, wd, "two%s_%d" % (comp, nrun), comp, sc)
+                    ext = [e for e in evs if e["e"] == "Exit"]
+                    exit_ok = bool(ext) and ext[0]["code"] == 0 and ext[0]["sig"] == 0
+                    closed = sum(1 for e in evs if e["e"] == "WClose") == 2
+                    same = all(os.path.exists(p) and filecmp.cmp(p, ref, shallow=False) for p in paths)
+                    recs.append({"e": "Reset", "x": nrun})
+                    recs += [e for e in evs if e["e"] == "Write"]
+                    recs.append({"e": "Final", "exit": "ok" if (exit_ok and closed) else "abort", "same": same, "size": sum(os.path.getsize(p) for p in paths if os.path.exists(p)),
+                                 "total": 2 * total, "script": [list(x) for x in sc] + [["two tables"]], "comp": comp})
+                    nrun += 1
+                    ctx.add("fault_scripts", 1)
+                    ctx.add("faulted_runs", 1)
+                    ctx.add("two_table_runs", 1)
+                    for p in paths:
+                        if os.path.exists(p):
+                            os.unlink(p)
     for ex, line in core.validate_batch(ctx, recs, "wa", module="Trace_WriteAll"):
         fin = next((e for e in ex if e["e"] == "Final"), {})
         core.report(ctx, "write(2) fault script %s (%s): run not explained by the contract at trace line %d: %s" % (
